@@ -24,6 +24,8 @@ pub struct Opts {
     pub replay: Option<String>,
     /// wall-clock budget; when exceeded the remaining cases are skipped and a cap is reported
     pub budget: Duration,
+    /// unparsed arguments (child-process modes)
+    pub extra: Vec<String>,
 }
 
 fn seqs(letters: &[Op], max_len: usize) -> Vec<Vec<Op>> {
